@@ -2513,7 +2513,7 @@ hwloc__xml_v2export_object (hwloc__xml_export_state_t parentstate, hwloc_topolog
 #define EXPORT_TYPE_GPINDEX_ARRAY(state, nr, objs, tagname, maxperline) do { \
   unsigned _i = 0; \
   while (_i<(nr)) { \
-    char _tmp[255]; /* enough for (snprintf(type+index)+space) x maxperline */ \
+    char _tmp[32*(maxperline)+1]; /* enough for (type (8 chars max) + ':' + 64bit gp_index (20 digits max) + space) x maxperline */ \
     char _tmp2[16]; \
     size_t _len = 0; \
     unsigned _j; \
